@@ -85,6 +85,7 @@ Definition P_C19 (x : input) (y : output) : bool :=
 
 (* why two different contents can have the same lines *)
 Definition gap_class (o : option string) (n : string) : string :=
+  if opt_str_eqb o (Some n) then "equal-content" else
   match o with
   | None => if is_empty n then "absent-vs-empty" else "other"
   | Some s =>
